@@ -751,7 +751,7 @@ def kinds(case, obs):
         k.append('encs-configured')
     k.append('trace-len-%d' % min(len(trace), 9))
     k.append('pre-%d' % len(case['pre']))
-    if case['pre'] and len(trace) < 4 and r and r[0] == 200:
+    if case['pre'] and len(trace) <= 4 and r and r[0] == 200:
         k.append('filemap-hit')
     if case['mount'] == 'subpath':
         k.append('secure-' + ('none' if obs[1] == [] else 'some'))
